@@ -89,7 +89,7 @@ pub fn gen_probe_spec(c: &mut Chooser, allow_dispose: bool) -> ProbeSpec {
             policy.push(
                 [React::Terminate, React::Terminate, React::Error, React::PullTerminate, React::PullError][c.choose(5)],
             );
-            ProbeSpec { policy, rest: base, pull_cap: 1000, attach: None, poke: None, late_pulls: false, drop_talkback: false }
+            ProbeSpec { policy, rest: base, pull_cap: 1000, attach: None, poke: None, feed: None, late_pulls: false, drop_talkback: false }
         },
         _ => {
             let n = 1 + c.choose(6);
@@ -115,7 +115,7 @@ pub fn gen_probe_spec(c: &mut Chooser, allow_dispose: bool) -> ProbeSpec {
                 policy.push(r);
             }
             let rest = [React::Nothing, React::Pull][c.choose(2)];
-            ProbeSpec { policy, rest, pull_cap: 1000, attach: None, poke: None, late_pulls: false, drop_talkback: false }
+            ProbeSpec { policy, rest, pull_cap: 1000, attach: None, poke: None, feed: None, late_pulls: false, drop_talkback: false }
         },
     }
 }
@@ -231,7 +231,7 @@ fn gen_huge_merge(c: &mut Chooser) -> CaseSpec {
         pspecs.push(PuppetSpec { mode: Mode::Listen, late: false, fin: Fin::Never, burst: 0, eager_end: false, per_pull: 1, on_stop: None, feedback: None, on_pull: None });
         lens.push(if talkative.contains(&i) { 1 + c.choose(2) } else { 0 });
     }
-    let probe = ProbeSpec { policy: vec![if c.chance(1, 2) { React::Pull } else { React::Nothing }], rest: React::Nothing, pull_cap: 4, attach: None, poke: None, late_pulls: false, drop_talkback: false };
+    let probe = ProbeSpec { policy: vec![if c.chance(1, 2) { React::Pull } else { React::Nothing }], rest: React::Nothing, pull_cap: 4, attach: None, poke: None, feed: None, late_pulls: false, drop_talkback: false };
     CaseSpec { topo: Topo::Merge(n), pspecs, lens, probe_specs: vec![probe], max_steps: 4 + c.choose(6), drain: false, credit_env: false, weights: [8, 5, 2, 1, 1, 4] }
 }
 
@@ -557,6 +557,22 @@ pub fn gen_case_full(c: &mut Chooser, op: &str, prop: &str, small: bool, deep: b
             }
             policy[k] = React::Pull;
             probe_specs[i].policy = policy;
+        }
+    }
+    if let Topo::Share(n) = &topo {
+        // the shared source's upstream reacts to being told to stop by letting another consumer
+        // subscribe the shared value from inside that call (a cleanup hook that restarts a consumer)
+        if *n >= 2 && !credit && matches!(prop, "C02" | "C03" | "C04" | "C12" | "C17") && c.chance(1, 6) {
+            pspecs[0].on_stop = Some((2, 1 + c.choose(*n - 1)));
+        }
+    }
+    if n_probes == 1 && !credit && !indep && !small && matches!(prop, "C02" | "C03" | "C04" | "C05" | "C07" | "C17") {
+        // a consumer that feeds the source it listens to: from inside its k-th datum or its end it
+        // makes a (listenable) upstream emit its next item
+        let listen: Vec<usize> = (0..n_puppets).filter(|i| pspecs[*i].mode == Mode::Listen).collect();
+        if !listen.is_empty() && c.chance(1, 6) {
+            let t = [1u8, 2, 2][c.choose(3)];
+            probe_specs[0].feed = Some((t, 1 + c.choose(4), listen[c.choose(listen.len())]));
         }
     }
     if let (Topo::FromIter(_), "C15") = (&topo, prop) {
